@@ -1,6 +1,7 @@
 package checks
 
 import (
+	"bytes"
 	"fmt"
 	"math/big"
 
@@ -93,6 +94,26 @@ func c04Units(ctx *core.Ctx) []core.Unit {
 				if err != nil {
 					vio(r, "c04.prove", "ipa.CreateIPAProof", in, "a proof", "error: "+err.Error())
 					continue
+				}
+				// the proof as a receiver gets it: written and read back (identity points come back in the
+				// representation the decoder chooses), accepted for p(point) and rejected for p(point)+1
+				{
+					var rt ipa.IPAProof
+					var okr, okf bool
+					var rerr, verr error
+					if guard(r, "c04.panic", "ipa.IPAProof.Read / CheckIPAProof", in+" after a Write/Read round trip", func() {
+						rerr = rt.Read(bytes.NewReader(ipaProofBytes(&proof)))
+						if rerr == nil {
+							okr, verr = ipa.CheckIPAProof(common.NewTranscript("ipa"), c, cm, rt, ze, frFromBig(pz))
+							okf, _ = ipa.CheckIPAProof(common.NewTranscript("ipa"), c, cm, rt, ze, frFromBig(ref.AddR(pz, bi(1))))
+						}
+					}) {
+						r.Evals++
+						r.Nontrivial++
+						if rerr != nil || verr != nil || !okr || okf {
+							vio(r, "c04.verify", "ipa.IPAProof.Read / CheckIPAProof", in+" after a Write/Read round trip of the proof", "accepted for p(point), rejected for p(point)+1", fmt.Sprintf("read error=%v accepted=%v err=%v, accepted for p(point)+1=%v", rerr, okr, verr, okf))
+						}
+					}
 				}
 				results := []*big.Int{pz, ref.AddR(pz, bi(1)), bi(0), ref.SubR(new(big.Int), pz)}
 				if z.IsInt64() || true {
@@ -259,6 +280,15 @@ func c04Units(ctx *core.Ctx) []core.Unit {
 					return
 				}
 				bad := ipa.IPAProof{L: pr.L[:len(pr.L)-1], R: pr.R, A_scalar: pr.A_scalar}
+				ipa.CheckIPAProof(common.NewTranscript("ipa"), c, cmB, bad, frFromBig(z), fr.One())
+			}},
+			{"CheckIPAProof of B's opening with L[1] := Element{} (not a point)", func(z *big.Int) {
+				pr, err := ipa.CreateIPAProof(common.NewTranscript("ipa"), c, cmB, append([]fr.Element(nil), aB...), frFromBig(z))
+				if err != nil {
+					return
+				}
+				bad := ipa.IPAProof{L: append([]banderwagon.Element(nil), pr.L...), R: pr.R, A_scalar: pr.A_scalar}
+				bad.L[1] = banderwagon.Element{}
 				ipa.CheckIPAProof(common.NewTranscript("ipa"), c, cmB, bad, frFromBig(z), fr.One())
 			}},
 			{"CheckIPAProof of a false value for B", func(z *big.Int) {
